@@ -768,15 +768,19 @@ impl XmlAttribute {
     }
 
     fn declaration_def(&self) -> Option<XmlDeclarationAttDef> {
+        // the first definition of the name in any attribute-list declaration for the element type
         self.element()
             .as_ref()?
             .borrow()
-            .declaration_att_list()?
-            .borrow()
-            .atts
+            .declaration_att_lists()
             .iter()
-            .find(|v| equal_qname(v.qname(), self.qname()))
-            .cloned()
+            .find_map(|list| {
+                list.borrow()
+                    .atts
+                    .iter()
+                    .find(|v| equal_qname(v.qname(), self.qname()))
+                    .cloned()
+            })
     }
 
     fn declaration_type(&self) -> Option<XmlDeclarationAttType> {
@@ -2176,7 +2180,8 @@ impl Element for XmlElement {
     fn attributes(&self) -> UnorderedSet<XmlNode<XmlAttribute>> {
         let mut items = self.attributes_specified();
 
-        if let Some(attrs) = self.declaration_att_list() {
+        // every attribute-list declaration for the element type counts (XML 1.0 3.3: they are merged)
+        for attrs in self.declaration_att_lists() {
             for attr in attrs.borrow().atts.as_slice() {
                 if attr.value != XmlDeclarationAttDefault::Implied
                     && !items
@@ -2461,6 +2466,20 @@ impl XmlElement {
             .iter()
             .find(|v| equal_qname(v.borrow().qname(), self.qname()))
             .cloned()
+    }
+
+    fn declaration_att_lists(&self) -> Vec<XmlNode<XmlDeclarationAttList>> {
+        if let Some(declaration) = self.context.document().borrow().document_declaration() {
+            declaration
+                .borrow()
+                .attributes()
+                .iter()
+                .filter(|v| equal_qname(v.borrow().qname(), self.qname()))
+                .cloned()
+                .collect()
+        } else {
+            vec![]
+        }
     }
 
     fn find_nameapce_uri(&self, prefix: &str) -> error::Result<Option<NamespaceUri>> {
